@@ -314,6 +314,15 @@ def check_C04(chk):
     res = vlib.run_tlc(chk.work, "MC_VecRef_run", "MC_VecRef", cfg_consts({"Alpha": "{0, 1, 2, 3, 5}", "MaxLen": 5 if chk.thorough else 4}) + MC_TAIL + "INVARIANT Inv\n", workers=8)
     vlib.tlc_must_pass(res, "MC_VecRef")
     chk.add_tlc(res, "MC_VecRef: map_up inverts map_down, reordering is the stable reversed-bit sort, closed forms equal definitions")
+    resm = vlib.run_tlc(chk.work, "MC_WM", "WM", cfg_consts({"Alpha": "{0, 1, 2, 3, 5}", "MaxLen": 4 if chk.thorough else 3, "CheckedSub": "TRUE"}) + MC_TAIL + "INVARIANT Refines\n",
+                        workers=16, timeout=3000)
+    vlib.tlc_must_pass(resm, "mech/WM")
+    chk.add_tlc(resm, "mech/WM (Layer B): levels by stable partition, per-level map_down / map_up steps with the checked subtraction, `first`, rank = map_down_with - first, "
+                      "select = map_up_with(first + r): every vector over {0,1,2,3,5} up to length %d, every index / rank incl. huge, every value incl. 2^width(+1)" % (4 if chk.thorough else 3))
+    resn = vlib.run_tlc(chk.work, "MC_WM_mut", "WM", cfg_consts({"Alpha": "{0, 1, 2, 3}", "MaxLen": 6, "CheckedSub": "FALSE"}) + MC_TAIL + "INVARIANT Refines\n", workers=8, timeout=900)
+    if not resn.violation:
+        raise ToolError("self-test failed: mech/WM with the unchecked subtraction in map_up_one (F5) does not violate Refines")
+    chk.cov["stages"].append({"stage": "self-test: mech/WM with the unchecked subtraction of F5 violates Refines", "ok": True})
     if chk.thorough:
         stage_gen_wm(chk, bins, "{0, 1, 2, 3}", 6, label="a4")
         stage_gen_wm(chk, bins, "{0, 1, 2, 3, 4, 5, 6, 7}", 4, label="a8")
